@@ -744,6 +744,281 @@ val dec_bind : val0 -> bind0
 
 val dispatch_bind : z -> val0 -> val0 option
 
+val mAXQ : nat
+
+val nLc : z
+
+val pATHSEP : z
+
+type item = z * str
+
+val idx : item -> z
+
+type act0 =
+| AChar of z
+| APut of str
+| ABackwardDeleteChar
+| ADeleteChar
+| ABackwardChar
+| AForwardChar
+| ABeginningOfLine
+| AEndOfLine
+| AKillLine
+| AUnixLineDiscard
+| AUnixWordRubout
+| ABackwardKillWord
+| ABackwardWord
+| AForwardWord
+| AKillWord
+| AYank
+| AClearQuery
+| ACancel
+| AChangeQuery of str
+| AReplaceQuery
+| AUp
+| ADown
+| AFirst
+| ALast
+| APos of z
+| APageUp
+| APageDown
+| AHalfPageUp
+| AHalfPageDown
+| AToggle
+| AToggleIn
+| AToggleOut
+| ASelect
+| ADeselect
+| ASelectAll
+| ADeselectAll
+| AToggleAll
+| AClearSelection
+| ATruncate
+| ARender
+| AUpdate of item list * bool
+
+type zip = { zb : str; za : str; zk : str }
+
+val ztext : zip -> str
+
+val is_blank : z -> bool
+
+val word_span : (z -> bool) -> str -> nat
+
+val move_left : nat -> zip -> zip
+
+val move_right : nat -> zip -> zip
+
+val kill_left : nat -> zip -> zip
+
+val kill_right : nat -> zip -> zip
+
+val zinsert : str -> zip -> zip
+
+type ecmd =
+| EInsert of str
+| EBackDel
+| EDel
+| ELeft
+| ERight
+| EHome
+| EEnd
+| EKillLine
+| ELineDiscard
+| EWordRubout
+| EBackKillWord
+| EBackWord
+| EFwdWord
+| EKillWord
+| EYank
+| EClear
+| ECancel
+| ESet of str
+| ETrunc
+| ENop
+
+val zstep : (z -> bool) -> zip -> ecmd -> zip
+
+val clampz : z -> z -> z -> z
+
+val clamp_pos : z -> z -> z
+
+val cur_move : bool -> z -> z -> z -> z
+
+val sel_mem : z -> item list -> bool
+
+val sel_remove : z -> item list -> item list
+
+val sel_add : z -> item -> item list -> bool * item list
+
+val sel_toggle : z -> item -> item list -> bool * item list
+
+val sel_add_all : z -> item list -> item list -> item list
+
+val sel_remove_all : item list -> item list -> item list
+
+val sel_toggle_all : z -> item list -> item list -> item list
+
+val spec_output : item list -> item option -> item list
+
+type sparams = { sp_multi : z; sp_cycle : bool; sp_flip : bool; sp_page : 
+                 z; sp_noinput : bool }
+
+type sstate = { ss_zip : zip; ss_res : item list; ss_pos : z;
+                ss_sel : item list }
+
+val ss_count : sstate -> z
+
+val ss_current : sstate -> item option
+
+val ecmd_of_spec : sstate -> act0 -> ecmd
+
+val dirz : sparams -> bool -> z
+
+val with_pos : sstate -> z -> sstate
+
+val with_sel : sstate -> item list -> sstate
+
+val smove : sparams -> sstate -> bool -> sstate
+
+val stoggle : sparams -> sstate -> bool * sstate
+
+val sstep_list : sparams -> sstate -> act0 -> sstate
+
+val sstep : (z -> bool) -> sparams -> sstate -> act0 -> sstate
+
+val srun : (z -> bool) -> sparams -> sstate -> act0 list -> sstate
+
+val obs_cursor_ok : z -> z -> z option -> z list -> bool
+
+val nodupz : z list -> bool
+
+val obs_sel_ok : z -> z list -> bool
+
+type cfg = { c_multi : z; c_cycle : bool; c_default_layout : bool;
+             c_inputless : bool; c_track : bool; c_maxitems : z;
+             c_scrolloff : z; c_fileword : bool }
+
+type st = { s_input : str; s_cx : nat; s_yanked : str; s_res : item list;
+            s_cy : z; s_offset : z; s_sel : item list }
+
+val take : 'a1 list -> nat -> 'a1 list res
+
+val drop : 'a1 list -> nat -> 'a1 list res
+
+val slice : 'a1 list -> nat -> nat -> 'a1 list res
+
+val constrain_z : z -> z -> z -> z
+
+val isw : (z -> bool) -> cfg -> z -> bool
+
+val rx_word_rubout : (z -> bool) -> cfg -> z -> z -> bool
+
+val rx_space_nonspace : z -> z -> bool
+
+val find_last : (z -> z -> bool) -> str -> nat option
+
+val find_last_plus1 : (z -> z -> bool) -> str -> nat
+
+val find_first_next : (z -> bool) -> cfg -> str -> nat option
+
+val find_first_plus1 : (z -> bool) -> cfg -> str -> nat
+
+val count : st -> z
+
+val set_edit : st -> str -> nat -> str -> st
+
+val set_cy : st -> z -> st
+
+val set_sel : st -> item list -> st
+
+val current_item : st -> item option res
+
+val insert_at : st -> str -> st res
+
+val rubout : st -> (z -> z -> bool) -> st res
+
+val do_edit : (z -> bool) -> cfg -> st -> act0 -> st res
+
+val vset : st -> z -> st
+
+val vmove : cfg -> st -> z -> st
+
+val adjust : nat -> bool -> z -> z -> z -> z -> z -> z -> z res
+
+val constrain_loop : cfg -> nat -> z -> z -> z -> z -> (z * z) res
+
+val constrain : cfg -> st -> st res
+
+val select_item : cfg -> item -> item list -> bool * item list
+
+val deselect_item : item -> item list -> item list
+
+val toggle_item : cfg -> item -> item list -> bool * item list
+
+val toggle_current : cfg -> st -> (bool * st) res
+
+val select_all_loop : cfg -> item list -> item list -> item list
+
+val deselect_all_loop : item list -> item list -> item list
+
+val toggle_all_first : item list -> nat -> item list -> nat list * item list
+
+val toggle_all_second :
+  cfg -> item list -> nat -> nat list -> item list -> item list
+
+val multi_on : cfg -> bool
+
+val toggle_and_move : cfg -> st -> z -> st res
+
+val page_move : cfg -> st -> bool -> bool -> st
+
+val find_index : z -> item list -> nat option
+
+val update_list : cfg -> st -> item list -> bool -> st res
+
+val do_list : cfg -> st -> act0 -> st res
+
+val is_edit : act0 -> bool
+
+val is_action : act0 -> bool
+
+val do_action : (z -> bool) -> cfg -> st -> act0 -> st res
+
+val run : (z -> bool) -> cfg -> st -> act0 list -> st res
+
+val output : st -> item list res
+
+val as_item : val0 -> item
+
+val vitem : item -> val0
+
+val as_items : val0 -> item list
+
+val vitems : item list -> val0
+
+val as_table : val0 -> z -> bool
+
+val as_cfg : val0 -> cfg
+
+val as_st : val0 -> st
+
+val vst : st -> val0
+
+val as_act : val0 -> act0
+
+val as_sparams : val0 -> sparams
+
+val spec_isw : val0 -> z -> bool
+
+val as_sstate : val0 -> sstate
+
+val vsstate : sstate -> val0
+
+val as_optz : val0 -> z option
+
+val dispatch_edit : z -> val0 -> val0 option
+
 val nL : z
 
 val split_nl_aux : str -> str -> str list
@@ -792,7 +1067,7 @@ type sop =
 | Prev
 | Next
 
-type sess = { s_hist : hist; s_input : str; s_seen : str list }
+type sess = { s_hist : hist; s_input0 : str; s_seen : str list }
 
 val sess_step : sess -> sop -> sess res
 
@@ -981,7 +1256,7 @@ type pres =
 
 val process : pstate -> str -> pres
 
-val run : nat -> scanner -> pstate -> ((pstate, str) sum * bool) res
+val run0 : nat -> scanner -> pstate -> ((pstate, str) sum * bool) res
 
 val total_len : str list -> nat
 
@@ -1180,11 +1455,11 @@ val e_VALIDATION : z
 
 val e_HISTORY : z
 
-type cfg = { fv0 : (field -> val0); kmap : keymap; expect : key list }
+type cfg0 = { fv0 : (field -> val0); kmap : keymap; expect : key list }
 
-val setf : field -> val0 -> cfg -> cfg
+val setf : field -> val0 -> cfg0 -> cfg0
 
-val setfs : (field * val0) list -> cfg -> cfg
+val setfs : (field * val0) list -> cfg0 -> cfg0
 
 type env = { isdir : (str -> bool); histok : (str -> bool); tty : bool }
 
@@ -1295,24 +1570,24 @@ val next_string : str option -> str list -> (str * nat) option
 
 val take_dirs : env -> str list -> str list
 
-val history_set : cfg -> bool
+val history_set : cfg0 -> bool
 
 val exec :
-  env -> okind -> str option -> cfg -> str list -> (cfg * nat) outcome res
+  env -> okind -> str option -> cfg0 -> str list -> (cfg0 * nat) outcome res
 
-val step : env -> cfg -> str -> str list -> (cfg * nat) outcome res
+val step : env -> cfg0 -> str -> str list -> (cfg0 * nat) outcome res
 
-val go : env -> cfg -> nat -> str list -> cfg outcome res
+val go : env -> cfg0 -> nat -> str list -> cfg0 outcome res
 
 val as_z : val0 -> z
 
-val end_validate : cfg -> cfg outcome
+val end_validate : cfg0 -> cfg0 outcome
 
-val layer_init : cfg -> cfg
+val layer_init : cfg0 -> cfg0
 
-val parse_layer : env -> cfg -> str list -> cfg outcome res
+val parse_layer : env -> cfg0 -> str list -> cfg0 outcome res
 
-val parse_layers : env -> cfg -> str list list -> cfg outcome res
+val parse_layers : env -> cfg0 -> str list list -> cfg0 outcome res
 
 val s_dotgit : str
 
@@ -1320,7 +1595,7 @@ val s_node_modules : str
 
 val s_prompt : str
 
-val default_cfg : cfg
+val default_cfg : cfg0
 
 val s_reload : str
 
@@ -1330,15 +1605,15 @@ val s_transform : str
 
 val s_start : str
 
-val reload_on_start : cfg -> bool
+val reload_on_start : cfg0 -> bool
 
-val finalize : env -> cfg -> cfg
+val finalize : env -> cfg0 -> cfg0
 
-val parse_all : env -> str list -> str list -> str list -> cfg outcome res
+val parse_all : env -> str list -> str list -> str list -> cfg0 outcome res
 
 val dec_env : val0 -> env
 
-val enc_cfg : cfg -> val0
+val enc_cfg : cfg0 -> val0
 
 val option_effect : str -> str -> val0
 
@@ -1543,7 +1818,7 @@ type lst = { l_mode : mode; l_cur : str; l_acc : str list }
 
 val step0 : lst -> z -> lst option
 
-val run0 : lst -> str -> lst option
+val run1 : lst -> str -> lst option
 
 val finish0 : lst -> str list option
 
@@ -1712,13 +1987,13 @@ val trim_with : (str -> nat) -> nat -> str -> str
 
 val trim_space0 : str -> str
 
-type item = z * str
+type item0 = z * str
 
 val min_int32 : z
 
 type params = { p_delim : str option; p_printsep : str; p_force_plus : 
-                bool; p_query : str; p_current : item list;
-                p_selected : item list; p_action : str; p_prompt : str;
+                bool; p_query : str; p_current : item0 list;
+                p_selected : item0 list; p_action : str; p_prompt : str;
                 p_fish : bool }
 
 type outp =
@@ -1743,16 +2018,16 @@ val s_empty_quotes : str
 
 val quoted : params -> str -> str * str
 
-val repl_item : params -> flags -> item -> str * str
+val repl_item : params -> flags -> item0 -> str * str
 
 val field_value : params -> flags -> rng list -> str -> str res
 
-val repl_fields : params -> flags -> rng list -> item -> (str * str) res
+val repl_fields : params -> flags -> rng list -> item0 -> (str * str) res
 
 val map_res : ('a1 -> 'a2 res) -> 'a1 list -> 'a2 list res
 
 val over_items :
-  params -> flags -> bool -> (item -> (str * str) res) -> str list ->
+  params -> flags -> bool -> (item0 -> (str * str) res) -> str list ->
   ((outp * str list) * str list) res
 
 val expand_ph :
@@ -1768,7 +2043,7 @@ val replace_placeholder : params -> str -> str list -> (str * str list) res
 
 val vopt_words : str list option -> val0
 
-val as_item : val0 -> item
+val as_item0 : val0 -> item0
 
 val as_optstr : val0 -> str option
 
@@ -1794,19 +2069,19 @@ val split_acc : z -> str -> str -> str list
 
 val split_records : z -> str -> str list
 
-type item0 = nat * str
+type item1 = nat * str
 
-val number_from : nat -> str list -> item0 list
+val number_from : nat -> str list -> item1 list
 
 val header_of : nat -> str list -> str list
 
-val items_of : nat -> str list -> item0 list
+val items_of : nat -> str list -> item1 list
 
 val keep_tail : nat -> 'a1 list -> 'a1 list
 
-val searchable : bool -> nat -> nat -> str -> item0 list
+val searchable : bool -> nat -> nat -> str -> item1 list
 
-type slice = { sl_buf : nat; sl_off : nat; sl_len : nat }
+type slice0 = { sl_buf : nat; sl_off : nat; sl_len : nat }
 
 type mem0 = str list
 
@@ -1818,7 +2093,7 @@ val overwrite : 'a1 list -> 'a1 list -> 'a1 list res
 
 val write_off : nat -> 'a1 list -> 'a1 list -> 'a1 list res
 
-val deref : mem0 -> slice -> str res
+val deref : mem0 -> slice0 -> str res
 
 val write_at : mem0 -> nat -> nat -> str -> mem0 res
 
@@ -1828,9 +2103,9 @@ val cR : z
 
 val index_byte0 : str -> z -> nat option
 
-type fstate = { f_mem : mem0; f_left : str; f_items : slice list }
+type fstate = { f_mem : mem0; f_left : str; f_items : slice0 list }
 
-val emit0 : fstate -> slice -> fstate res
+val emit0 : fstate -> slice0 -> fstate res
 
 val scan_buf : nat -> z -> bool -> nat -> nat -> str -> fstate -> fstate res
 
@@ -1839,13 +2114,13 @@ val read_retry : nat -> nat -> nat -> str -> nat list -> str * nat list
 val read_tries : nat
 
 val feed_loop :
-  nat -> nat -> nat -> z -> bool -> str -> nat list -> slice -> fstate ->
+  nat -> nat -> nat -> z -> bool -> str -> nat list -> slice0 -> fstate ->
   fstate res
 
 val feed :
-  nat -> nat -> z -> bool -> str -> nat list -> (mem0 * slice list) res
+  nat -> nat -> z -> bool -> str -> nat list -> (mem0 * slice0 list) res
 
-val deref_all : mem0 -> slice list -> str list res
+val deref_all : mem0 -> slice0 list -> str list res
 
 val feed_records : nat -> nat -> z -> bool -> str -> nat list -> str list res
 
@@ -1882,19 +2157,19 @@ val run_ops :
 
 type bstate = { b_header : str list; b_index : nat }
 
-val build : nat -> bstate -> str -> bstate * item0 option
+val build : nat -> bstate -> str -> bstate * item1 option
 
 val ingest :
-  nat -> nat -> bstate -> item0 chunklist -> str list -> (bstate * item0
+  nat -> nat -> bstate -> item1 chunklist -> str list -> (bstate * item1
   chunklist) res
 
 val pipeline :
   nat -> nat -> nat -> bool -> nat -> nat -> str -> nat list -> (str
-  list * item0 list) res
+  list * item1 list) res
 
 val as_nats : val0 -> nat list
 
-val vitem : item0 -> val0
+val vitem0 : item1 -> val0
 
 val vres_strs : str list res -> val0
 
@@ -1916,7 +2191,7 @@ val d_keep_tail : val0 -> val0
 
 val dispatch_record : z -> val0 -> val0 option
 
-val is_blank : z -> bool
+val is_blank0 : z -> bool
 
 val non_blank : z -> bool
 
@@ -1987,7 +2262,7 @@ type delimiter =
 
 val is_awk : delimiter -> bool
 
-val slice0 : str -> nat -> nat -> str res
+val slice1 : str -> nat -> nat -> str res
 
 val with_prefix_lengths : str list -> z -> token list
 
@@ -2087,7 +2362,7 @@ val as_range : val0 -> range
 
 val as_ranges : val0 -> range list
 
-val as_optz : val0 -> z option
+val as_optz0 : val0 -> z option
 
 val as_fexpr : val0 -> fexpr
 
